@@ -42,9 +42,41 @@ async def probe(make_mgr, label):
     return bad
 
 
+def second_loop(make_mgr, label):
+    """one manager object serving two event loops one after the other (the module-level default task manager across two
+    asyncio.run() calls): every coroutine handed over under the second loop is started and tracked until done there"""
+    bad = []
+    mgr = make_mgr()
+    ran = []
+
+    async def coro(tag):
+        await asyncio.sleep(0)
+        ran.append(tag)
+
+    async def use(tag):
+        mgr.create_task(coro(tag))
+        for _ in range(4):
+            await asyncio.sleep(0)
+
+    try:
+        asyncio.run(use('first'))
+        asyncio.run(use('second'))
+    except Exception as e:  # noqa: BLE001
+        bad.append(f'{label}: create_task under a second event loop raised {type(e).__name__}: {e}')
+        return bad
+    if ran != ['first', 'second']:
+        bad.append(f'{label}: coroutines run under two successive event loops: {ran}, expected first and second')
+    if len(getattr(mgr, 'tasks', [])) != 0:
+        bad.append(f'{label}: finished tasks are still tracked after the second loop: {len(mgr.tasks)}')
+    return bad
+
+
 def main() -> int:
-    from eascheduler.task_managers import LimitingParallelTaskManager, ParallelTaskManager
+    from eascheduler.task_managers import (LimitingParallelTaskManager, ParallelTaskManager, SequentialTaskManager)
     out = []
+    out += second_loop(ParallelTaskManager, 'ParallelTaskManager')
+    out += second_loop(lambda: LimitingParallelTaskManager(3, 'skip'), 'LimitingParallelTaskManager(3)')
+    out += second_loop(SequentialTaskManager, 'SequentialTaskManager')
     out += asyncio.run(probe(ParallelTaskManager, 'ParallelTaskManager'))
     out += asyncio.run(probe(lambda: LimitingParallelTaskManager(3, 'skip'), 'LimitingParallelTaskManager(3)'))
     json.dump(out, sys.stdout)
